@@ -6,7 +6,7 @@
 set -u
 BD=$(cd "$1" && pwd); TIER=${2:-quick}; shift; shift || true
 PROP=$(basename "$BD" | cut -d- -f1)
-PROPS="$PROP $*"
+if [ "${BENIGN_ONLY_EXTRA:-0}" = 1 ]; then PROPS="$*"; else PROPS="$PROP $*"; fi
 W=/tmp/benignverify-$$
 git -C /repo worktree add --detach "$W" HEAD >/dev/null 2>&1
 trap 'git -C /repo worktree remove --force "$W" >/dev/null 2>&1; rm -rf "$W"' EXIT
